@@ -30,10 +30,10 @@ type Query struct {
 // Prelude knows about spec functions, axioms and string literals.
 type Prelude struct {
 	DB       *SpecDB
-	Defs     map[string]*DefFun   // defined spec functions (translated)
-	Axioms   []*AxiomT            // translated axioms (incl. proven lemmas)
-	StrLits  map[string]string    // symbol name -> Go string content
-	BoxFacts map[string][]*Term   // symbol -> facts to add when symbol is used
+	Defs     map[string]*DefFun // defined spec functions (translated)
+	Axioms   []*AxiomT          // translated axioms (incl. proven lemmas)
+	StrLits  map[string]string  // symbol name -> Go string content
+	BoxFacts map[string][]*Term // symbol -> facts to add when symbol is used
 }
 
 type DefFun struct {
@@ -54,9 +54,9 @@ type AxiomT struct {
 var builtinDecls = map[string]string{
 	"rowview":    "(declare-fun rowview ((Array Int Int) Int) (Array Int Int))",
 	"json.other": "(declare-fun json.other ((Array Int Int) Int) Str)",
-	"idx":  "(declare-fun idx (Int Int) Int)",
-	"slen": "(declare-fun slen (Str) Int)",
-	"sat":  "(declare-fun sat (Str Int) Int)",
+	"idx":        "(declare-fun idx (Int Int) Int)",
+	"slen":       "(declare-fun slen (Str) Int)",
+	"sat":        "(declare-fun sat (Str Int) Int)",
 }
 
 func builtinAxioms(sym string) []string {
@@ -150,15 +150,15 @@ func (p *Prelude) Emit(q *Query, wantModel bool) (string, []string) {
 					}
 				}
 			} else {
-			for k := range ax.syms {
-				if _, isDef := p.Defs[k]; isDef {
-					// defined functions also trigger
+				for k := range ax.syms {
+					if _, isDef := p.Defs[k]; isDef {
+						// defined functions also trigger
+					}
+					if _, ok := syms[k]; ok && k != "slen" && k != "sat" {
+						trig = true
+						break
+					}
 				}
-				if _, ok := syms[k]; ok && k != "slen" && k != "sat" {
-					trig = true
-					break
-				}
-			}
 			}
 			if trig {
 				usedAx[i] = true
